@@ -4,6 +4,7 @@ package table
 
 import (
 	enc "github.com/named-data/ndnd/std/encoding"
+	"github.com/named-data/ndnd/std/utils/priority_queue"
 )
 
 // Contracts for the gcv verifier (/verif); compiled only with build tag `verif`.
@@ -23,6 +24,10 @@ func implies(a, b bool) bool { return !a || b }
 // Dead nonce list: an abstract set of (name, nonce) keys
 // ---------------------------------------------------------------------------------------
 
+// ghostDnlItems names the element storage of the dead-nonce expiry queues for `modifies all(...)` clauses (Push may move
+// the queue to a new backing array, so callers that insert repeatedly cannot name the array in their pre-state).
+type ghostDnlItems = []*priority_queue.Item[uint64, int64]
+
 // specDnlKey: the key under which a (name, nonce) pair is recorded (A-HASH: the name hash identifies the name).
 func specDnlKey(name enc.Name, nonce uint32) uint64 { return enc.SpecNameHash(name) + uint64(nonce) }
 
@@ -30,18 +35,28 @@ func specDnlKey(name enc.Name, nonce uint32) uint64 { return enc.SpecNameHash(na
 //@   requires d.list != nil
 //@   ensures result == mapHas(d.list, specDnlKey(name, nonce))
 
+// [expiry-scheduled] (C08): a newly recorded key is queued for expiry at the clock reading taken by this call plus the
+// configured lifetime deadNonceListLifetime (clock model: ghostPitcsClock / specPitcsClockAt in zz_verif_pitcs.go).
+//
 //@ func (*DeadNonceList).Insert
 //@   requires d.list != nil
-//@   modifies d.list[*], d.expirationQueue.pq
+//@   modifies d.list[*], d.expirationQueue.pq, d.expirationQueue.pq[*], ghostPitcsClock
+//@   ensures [expiry-scheduled] !old(mapHas(d.list, specDnlKey(name, nonce))) ==> ghostPitcsClock == old(ghostPitcsClock)+1 && existsIn(0, len(d.expirationQueue.pq), func(i int) bool { return d.expirationQueue.pq[i] != nil && d.expirationQueue.pq[i].object == specDnlKey(name, nonce) && d.expirationQueue.pq[i].priority == specPitcsClockAt(old(ghostPitcsClock)).Add(deadNonceListLifetime).UnixNano() })
+//@   ensures [nothing-queued-twice] old(mapHas(d.list, specDnlKey(name, nonce))) ==> ghostPitcsClock == old(ghostPitcsClock) && len(d.expirationQueue.pq) == old(len(d.expirationQueue.pq))
 //@   ensures result == old(mapHas(d.list, specDnlKey(name, nonce))) && mapHas(d.list, specDnlKey(name, nonce))
 //@   ensures forall(func(k uint64) bool { return k != specDnlKey(name, nonce) ==> mapHas(d.list, k) == old(mapHas(d.list, k)) })
 
-// Expired records are removed, at most 100 per tick, and nothing else is touched; the loop stops.
+// Expired records are removed, at most 100 per tick, and nothing else is touched; the loop stops. [only-expired] (C08): a
+// record is removed only if it was queued with a scheduled time that is before (not after) a clock reading taken by this call.
 //
 //@ func (*DeadNonceList).RemoveExpiredEntries
-//@   requires d.list != nil
+//@   requires d.list != nil && forallIn(0, len(d.expirationQueue.pq), func(i int) bool { return d.expirationQueue.pq[i] != nil })
 //@   modifies d.list[*], d.expirationQueue.pq, d.expirationQueue.pq[*]
+//@   ensures [only-expired] forall(func(k uint64) bool { return old(mapHas(d.list, k)) && !mapHas(d.list, k) ==> existsIn(0, old(len(d.expirationQueue.pq)), func(j int) bool { return old(d.expirationQueue.pq[j]).object == k && existsIn(old(ghostPitcsClock), ghostPitcsClock, func(i int) bool { return old(d.expirationQueue.pq[j]).priority < specPitcsClockAt(i).UnixNano() }) }) })
 //@   ensures forall(func(k uint64) bool { return mapHas(d.list, k) ==> old(mapHas(d.list, k)) })
+//@   loop 1 invariant ghostPitcsClock >= old(ghostPitcsClock) && len(d.expirationQueue.pq) <= old(len(d.expirationQueue.pq))
+//@   loop 1 invariant forallIn(0, len(d.expirationQueue.pq), func(i int) bool { return d.expirationQueue.pq[i] != nil && existsIn(0, old(len(d.expirationQueue.pq)), func(j int) bool { return d.expirationQueue.pq[i] == old(d.expirationQueue.pq[j]) }) })
+//@   loop 1 invariant forall(func(k uint64) bool { return old(mapHas(d.list, k)) && !mapHas(d.list, k) ==> existsIn(0, old(len(d.expirationQueue.pq)), func(j int) bool { return old(d.expirationQueue.pq[j]).object == k && existsIn(old(ghostPitcsClock), ghostPitcsClock, func(i int) bool { return old(d.expirationQueue.pq[j]).priority < specPitcsClockAt(i).UnixNano() }) }) })
 //@   loop 1 invariant 0 <= evicted && evicted < 100 && forall(func(k uint64) bool { return mapHas(d.list, k) ==> old(mapHas(d.list, k)) })
 //@   loop 1 invariant sliceArr(d.expirationQueue.pq) == old(sliceArr(d.expirationQueue.pq))
 //@   loop 1 decreases 100 - evicted
